@@ -113,7 +113,7 @@ def judge(
             {
                 "signature": f"C01 valid history rejected / {type(out.error).__name__}",
                 "what": f"valid history rejected under {sched_str(schedule)}: {H.hist_str(hist)} :: {out.error}",
-                "history": H.hist_str(hist),
+                "history": H.hist_str(hist), "hist": hist,
                 "specs": specs,
                 "schedule": list(schedule),
                 "deviation": label,
@@ -154,7 +154,7 @@ def judge(
             {
                 "signature": f"C01 order / {sched_str(schedule) if len(schedule) == 1 else 'schedule'} / {problems[0].split(':')[0]}",
                 "what": f"{sched_str(schedule)}: {H.hist_str(hist)} :: {problems[0]}",
-                "history": H.hist_str(hist),
+                "history": H.hist_str(hist), "hist": hist,
                 "specs": specs,
                 "schedule": list(schedule),
                 "fractions": [(e, l, str(a)) for e, l, a in fr],
@@ -165,7 +165,7 @@ def judge(
     elif nontrivial and with_lot:
         st.sample(
             {
-                "history": H.hist_str(hist),
+                "history": H.hist_str(hist), "hist": hist,
                 "schedule": sched_str(schedule),
                 "pairing(event row, lot row, amount)": [(e, l, str(a)) for e, l, a in fr],
                 "deviation": label,
@@ -182,13 +182,14 @@ def plan(tier: str) -> List[Dict[str, Any]]:
         return [
             {"name": "single methods", "schedules": singles, "steps": ("=", "d"), "depth": 4, "dev": 0, "group": 1},
             {"name": "two-year schedules", "schedules": two, "steps": ("=", "d", "y"), "depth": 3, "dev": 0, "group": 4},
+            {"name": "three-year schedules", "schedules": three_year_schedules(), "steps": ("=", "d", "y"), "depth": 3, "dev": 0, "group": 6},
             {"name": "1 deviation", "schedules": singles, "steps": ("=", "d"), "depth": 3, "dev": 1, "group": 1, "from_depth": 2},
             {"name": "sheet order reversed", "schedules": singles, "steps": ("=", "d"), "depth": 3, "dev": 0, "group": 4, "row_order": "reverse"},
         ]
     return [
         {"name": "single methods", "schedules": singles, "steps": ("=", "d"), "depth": 5, "dev": 0, "group": 1},
         {"name": "two-year schedules", "schedules": two, "steps": ("=", "d", "y"), "depth": 4, "dev": 0, "group": 2},
-        {"name": "three-year schedules", "schedules": three_year_schedules(), "steps": ("=", "d", "y"), "depth": 3, "dev": 0, "group": 6},
+        {"name": "three-year schedules", "schedules": three_year_schedules(), "steps": ("=", "d", "y"), "depth": 4, "dev": 0, "group": 3},
         {"name": "1 deviation", "schedules": singles, "steps": ("=", "d"), "depth": 4, "dev": 1, "group": 1, "from_depth": 2},
         {"name": "2 deviations", "schedules": singles, "steps": ("=", "d"), "depth": 3, "dev": 2, "group": 1, "from_depth": 2},
         {"name": "sheet order reversed", "schedules": singles, "steps": ("=", "d"), "depth": 4, "dev": 0, "group": 4, "row_order": "reverse"},
@@ -245,3 +246,9 @@ def main(tier: str, budget_s: Optional[float] = None) -> int:
     for i in info:
         print("  ", i)
     return 1 if new else 0
+
+
+def replay(path: str) -> int:
+    from rp2verif.lotrun import replay_compute
+
+    return replay_compute(__name__, path)
